@@ -190,14 +190,19 @@ _confirmed = {}
 
 def confirm_blocked(ops, stats, cls):
     """A wall-clock watchdog fired while 16 sessions ran side by side: re-run the history alone with a long limit before calling it blocked.
-    At most two confirmations per class of history (cls): further members of a confirmed class are reported under the same finding."""
-    n = _confirmed.get(cls, 0)
-    if n >= 2:
-        return None
+    At most one confirmation per class of history (cls) and four per run (each may take 90 s); a watchdog hit that is not confirmed is
+    not reported (counted as watchdog_unconfirmed, the run is then not exhaustive)."""
+    if _confirmed.get(cls) or sum(_confirmed.values()) + stats.get("watchdog_refuted", 0) >= 4:
+        if _confirmed.get(cls):
+            return None          # same class as a confirmed one: reported under the same finding
+        stats["watchdog_unconfirmed"] = stats.get("watchdog_unconfirmed", 0) + 1
+        return {"timeout": False, "rc": 0, "lines": [], "stderr": "", "unconfirmed": True}
     r = execute(ops, watchdog=90)
     stats["watchdog_reruns"] = stats.get("watchdog_reruns", 0) + 1
     if blocked(r):
-        _confirmed[cls] = n + 1
+        _confirmed[cls] = 1
+    else:
+        stats["watchdog_refuted"] = stats.get("watchdog_refuted", 0) + 1
     return r
 
 
@@ -205,6 +210,8 @@ def analyse(ck, hist, op, kind, comp, r, stats):
     """returns True if the transition behaved"""
     if blocked(r):
         r = confirm_blocked(hist + [op] + comp, stats, op) or r
+        if r.get("unconfirmed"):
+            return False
     where = "after [%s]" % " ".join(hist)
     rep = {"history": hist, "op": op, "completion": comp}
     res = {}
@@ -321,6 +328,8 @@ def reject_sweep(ck, tier, stats):
         hist, op, comp = ["IH"], spx(e, v), ["SP", "DEINIT", "DH"]
         if blocked(r):
             r = confirm_blocked(hist + [op] + comp, stats, "SPX:" + e.split("=")[0].split(".")[0]) or r
+            if r.get("unconfirmed"):
+                continue
         seq = [(l[0], int(l[1])) for l in r["lines"] if l and l[0] not in ("PACKET", "END", "WATCHDOG", "SIGNAL") and len(l) > 1]
         rc = seq[1][1] if len(seq) > 1 else None
         is_rej = rc is not None and rc != ERR_NONE
@@ -338,6 +347,8 @@ def reject_sweep(ck, tier, stats):
         hist, op, comp = ["IH"], spx(e, v), ["SP", "IN", "SEND", "EOS", "DRAIN", "DEINIT", "DH"]
         if blocked(r):
             r = confirm_blocked(hist + [op] + comp, stats, "SPX:" + e.split("=")[0].split(".")[0]) or r
+            if r.get("unconfirmed"):
+                continue
         seq = [(l[0], int(l[1])) for l in r["lines"] if l and l[0] not in ("PACKET", "END", "WATCHDOG", "SIGNAL") and len(l) > 1]
         judge_after_reject(ck, e, hist, op, comp, r, seq, seq[1][1] if len(seq) > 1 else None)
     return {"probed": len(res), "enumerated": len(items), "rejected": rejected, "elements": len(elems), "elements_with_rejection": len(per_elem),
@@ -383,7 +394,7 @@ def run(tier):
     s2, t2, d2, sm2, c2 = bfs(ck, DecState(), depth, stats)
     s1, t1, d1, sm1, c1 = bfs(ck, EncState(), depth, stats)
     cov = {"states": s1 + s2, "transitions": t1 + t2, "traces_validated_against_impl": t1 + t2, "samples": (sm1 + sm2) or ["IH SP IN"],
-           "exhaustive": bool(c1 and c2 and rs["complete"]), "reject_sweep": rs, "watchdog_reruns": stats.get("watchdog_reruns", 0), "encoder_states": s1, "decoder_states": s2, "max_depth": max(d1, d2), "well_behaved_transitions": stats.get("ok", 0),
+           "exhaustive": bool(c1 and c2 and rs["complete"] and not stats.get("watchdog_unconfirmed")), "watchdog_unconfirmed": stats.get("watchdog_unconfirmed", 0), "reject_sweep": rs, "watchdog_reruns": stats.get("watchdog_reruns", 0), "encoder_states": s1, "decoder_states": s2, "max_depth": max(d1, d2), "well_behaved_transitions": stats.get("ok", 0),
            "explanation": "BFS over API call histories; canonical state = (handle phase, pictures sent <= 2, EOS sent, packets retrieved, header fetched) for the "
                           "encoder and (handle phase, temporal units fed <= 2) for the decoder; every transition replays its history in a fresh ASan process and "
                           "then completes the session normally; reject sweep: every configuration element x %s, each rejected configuration followed by a valid "
